@@ -781,6 +781,15 @@ func checkSpec(s *Spec, depths []int, deep int) {
 		}
 		rr := runSourceT(src, true, to)
 		key := src
+		if d <= 2000 {
+			// the whole-VM model (Tengo.Model.VM; theorems Tengo.Props.VM.self_tail_call_reuses_frame, push_only_when_not_tail):
+			// lock step, every dispatched instruction including the frame index
+			if vc, cerr := lib.CompileSource([]byte(src), lib.CompileOpts{}); cerr == nil {
+				if err := lib.VMStream(res, drv, vc, src, nil, []int64{-1}, func(int64) interface{} { return in }); err != nil {
+					fatal(err)
+				}
+			}
+		}
 		res.Count(stream, key, d >= 2 && len(s.Params)+len(s.Locals) >= 1)
 		res.Dist("form:" + s.Form)
 		res.Dist(fmt.Sprintf("depth:%d", d))
